@@ -19,8 +19,13 @@ VARIABLES hist, steps, lastres, pendingCrash
 
 R(S) == {RandomElement(S)}
 
+(* the repaired writer looks a transaction up before it opens its batch: one that is already in the
+   log is dropped without passing the harness's gate *)
+SkipsUngated == DedupFix /\ st \in {"open", "closing"} /\ wcur # None /\ dn[wcur] # Absent
+
 Busy ==
   \/ \E p \in Pushers : pu[p].pc # "idle"
+  \/ SkipsUngated
   \/ st \in {"open", "closing"} /\ wcur = None /\ wq # <<>>
   \/ st = "closing"
   \/ pendingCrash
@@ -28,6 +33,7 @@ Busy ==
 InternalStep ==
   /\ \/ \E p \in Pushers : PushInternal(p)
      \/ WTake
+     \/ SkipsUngated /\ WWrite("ok")
      \/ st = "closing" /\ (WWrite("ok") \/ CloseDone)
      \/ pendingCrash /\ Crash
   /\ pendingCrash' = (pendingCrash /\ act'.name # "Crash")
